@@ -206,9 +206,38 @@ fn record_layout(rec: &mut Rec, font: &MonoFont, lay: &Layout) -> bool {
     whole.painted
 }
 
+/// Lines that are millions of pixels apart (very large line heights): the pictures are logged as sparse coloured
+/// runs, the whole text against its lines drawn separately `line_height` apart (event "tall").
+fn record_tall(rec: &mut Rec, font: &MonoFont, lay: &Layout) -> bool {
+    let ts = text_style(lay.align, lay.base, lay.lh);
+    let sparse = |text: &[u32], pos: Point| {
+        let s = string_of(text);
+        let al = lay.align;
+        let t = mk_text(&s, pos, lay.sty.build(font), al, lay.base, lay.lh, text.len() + al as usize);
+        let mut target = MapTarget::<Gray8>::new();
+        let ret = t.draw(&mut target).unwrap();
+        (pt_json(ret), cruns_of(&target.map), !target.map.is_empty())
+    };
+    let _ = ts;
+    let pos = Point::new(lay.pos.0, lay.pos.1);
+    let (ret, map, painted) = sparse(&lay.text, pos);
+    let d = line_distance(lay.lh, font.character_size.height);
+    let raw_lines: Vec<&[u32]> = lay.text.split(|&c| c == 10).collect();
+    let nl = raw_lines.len();
+    let mut lines = vec![];
+    for (j, l) in raw_lines.iter().enumerate() {
+        let line: &[u32] = if j + 1 < nl && l.last() == Some(&13) { &l[..l.len() - 1] } else { l };
+        let y = lay.pos.1 + j as i32 * d;
+        let (lret, lmap, _) = sparse(line, Point::new(lay.pos.0, y));
+        lines.push(json!({"y": y, "ret": lret, "map": lmap}));
+    }
+    rec.ev("tall", json!({"ch": font.character_size.height, "lh": [lay.lh.0, lay.lh.1], "pos": [lay.pos.0, lay.pos.1], "ret": ret, "map": map, "lines": lines}));
+    painted
+}
+
 fn run_layout(rec: &mut Rec, font: &MonoFont, lay: &Layout) {
     // record_layout emits its single event at the very end: a panic leaves nothing half-written
-    match catch(|| record_layout(rec, font, lay)) {
+    match catch(|| if lay.lh.0 == 1 && lay.lh.1 > 1_000_000 { record_tall(rec, font, lay) } else { record_layout(rec, font, lay) }) {
         Ok(true) => rec.nontrivial(),
         Ok(false) => {}
         Err(p) => {
@@ -416,6 +445,17 @@ fn main() {
                     run_case(&mut rec, &fonts, &json!({"k": k, "font": f, "text": text, "pos": [x, y], "align": align, "base": base,
                         "lh": [1, 100], "sty": stys[j % stys.len()].to_arr(), "chains": []}));
                 }
+            }
+        }
+    }
+    // very large relative line heights: font height x percent between 2^31 and 2^32 (exact in the library's u32
+    // arithmetic, e.g. 150 000 000 % of a 20 px font = 30 000 000 px), lines that far apart still fit
+    for (k, f, ch) in pool.iter().take(4).chain(pool.iter().rev().take(2)) {
+        let pct = (3_000_000_000u64 / (*ch).max(1) as u64).min(2_000_000_000) as u32; // (event integers stay below 2^31)
+        for (j, (align, base)) in [(0u32, 0u32), (2, 1), (1, 3)].iter().enumerate() {
+            for text in [s("a\nb"), s("ab\r\nc\nd")] {
+                run_case(&mut rec, &fonts, &json!({"k": k, "font": f, "text": text, "pos": [7 * j as i32, -1_000_000_000 + j as i32], "align": align,
+                    "base": base, "lh": [1, pct], "sty": stys[j % stys.len()].to_arr(), "chains": []}));
             }
         }
     }
